@@ -7,6 +7,8 @@ import (
 	"strings"
 
 	"golang.org/x/tools/go/ssa"
+
+	"gosym/smt"
 )
 
 // opaqueMark tags strings whose exact text the engine did not compute (formatting of aggregates).
@@ -157,6 +159,10 @@ func (e *Engine) native(name string, f interface{}) {
 		if len(args) != ft.NumIn() && !ft.IsVariadic() {
 			panic(fmt.Sprintf("native model %s: %d args for %d params", name, len(args), ft.NumIn()))
 		}
+		// finite-domain symbolic scalar arguments and a scalar result: lift through the ite-trees
+		if r, ok := fr.liftNative(fn, fv, ft, args); ok {
+			return r
+		}
 		in := make([]reflect.Value, len(args))
 		for i, a := range args {
 			in[i] = fr.toNative(a, ft.In(i))
@@ -208,4 +214,60 @@ func (e *Engine) newWrapError(msg string, inner value) value {
 	t := e.namedType("fmt", "wrapError")
 	var cell value = structure{msg, inner}
 	return iface{t: types.NewPointer(t), v: &cell}
+}
+
+
+// liftNative evaluates a native function with a single scalar result over finite-domain symbolic
+// arguments by mapping over the leaves of their ite-trees (no forking, no string theory).
+func (fr *frame) liftNative(fn *ssa.Function, fv reflect.Value, ft reflect.Type, args []value) (value, bool) {
+	if ft.NumOut() != 1 || ft.IsVariadic() {
+		return nil, false
+	}
+	rk := basicKind(fn.Signature.Results().At(0).Type())
+	if rk == types.Invalid || !(rk == types.Bool || rk == types.String || kindWidth(rk) > 0) {
+		return nil, false
+	}
+	anySym := false
+	prod := 1
+	for _, a := range args {
+		if s, ok := a.(sym); ok {
+			n := smt.LeafCount(s.T, 64)
+			if n == 0 {
+				return nil, false
+			}
+			anySym = true
+			prod *= n
+			if prod > 256 {
+				return nil, false
+			}
+		} else if _, isSlice := a.([]value); isSlice {
+			return nil, false
+		}
+	}
+	if !anySym {
+		return nil, false
+	}
+	st := fr.p.st
+	cur := make([]value, len(args))
+	var rec func(i int) *smt.Term
+	rec = func(i int) *smt.Term {
+		if i == len(args) {
+			in := make([]reflect.Value, len(cur))
+			for j, a := range cur {
+				in[j] = fr.toNative(a, ft.In(j))
+			}
+			out := fv.Call(in)
+			return fr.toSym(fr.fromNative(out[0], fn.Signature.Results().At(0).Type()), rk).T
+		}
+		s, ok := args[i].(sym)
+		if !ok {
+			cur[i] = args[i]
+			return rec(i + 1)
+		}
+		return st.MapLeaves(s.T, func(l *smt.Term) *smt.Term {
+			cur[i] = fromTerm(l, s.K)
+			return rec(i + 1)
+		})
+	}
+	return fromTerm(rec(0), rk), true
 }
